@@ -58,9 +58,9 @@ func main() {
 		run(r, w.Case)
 		r.Finish()
 	}
-	for i, n := 0, r.Pick(400, 8000); i < n; i++ {
+	ev.Parallel(r.Pick(400, 8000), 8, func(i int) {
 		run(r, caseID{"small", r.Seed*1_000_003 + int64(i)})
-	}
+	})
 	for i, n := 0, r.Pick(12, 150); i < n; i++ {
 		run(r, caseID{"big", r.Seed*2_000_003 + int64(i)})
 	}
